@@ -64,6 +64,8 @@ def harnesses(ctx):
                       assumptions=["the first unit's key length does not exceed the parent (declared units concatenate to the word's key)", "ASCII text (bytes = characters)"],
                       stubs=["alloc::fmt::format -> empty string"], fs_array=True, timeout_s=1200, mem_gb=16))
     for h in C14.gen_harnesses("c01_join", JOIN_RANGES[ctx.tier]):
+        if q and "concat_oov_nodes" not in h.name:
+            continue  # quick: the OOV merge only (concat_nodes has the same range code and is decided by the C14 check and the thorough tier)
         h.rust_mod = "verif_c01_join"
         h.kernel = "C01 joined nodes take the begin of the first and the end of the last merged node (characters and bytes), whatever the dictionary-side strings are"
         hs.append(h)
